@@ -143,4 +143,14 @@ def equal_exact(kind, impl, model):
             return True, ''
         idx = np.argwhere(d > tol)[0]
         return False, 'first diff at %s: impl %r model %r' % (tuple(idx), impl[tuple(idx)], mf[tuple(idx)])
+    if kind == 'F':
+        mf = np.asarray(model, dtype=np.float64)
+        if not (np.isfinite(impl).all() and np.isfinite(mf).all()):
+            return False, 'non-finite values (impl finite: %s, model finite: %s)' % (bool(np.isfinite(impl).all()), bool(np.isfinite(mf).all()))
+        sc = max(1.0, float(np.max(np.abs(mf))) if mf.size else 1.0)
+        d = np.abs(impl - mf)
+        if (d <= 1e-9 * sc).all():
+            return True, ''
+        idx = np.argwhere(d > 1e-9 * sc)[0]
+        return False, 'first diff at %s: impl %r model %r' % (tuple(idx), impl[tuple(idx)], mf[tuple(idx)])
     raise ValueError(kind)
